@@ -224,7 +224,20 @@ impl SegmentedLog {
         if root_dir_fsync {
             // To uphold the guarantees provided by this function we should fsync the directory
             // after a new segment file is created.
+            #[cfg(feature = "verif")]
+            let _vg = {
+                use std::os::fd::AsRawFd as _;
+                crate::verif::pre(
+                    "seglog_append_dirsync",
+                    crate::verif::Kind::DirFsync,
+                    self.root_dir_fd.as_raw_fd(),
+                    0,
+                    &[],
+                )?
+            };
             self.root_dir_fd.sync_all()?;
+            #[cfg(feature = "verif")]
+            _vg.done();
         }
 
         Ok(record_id)
@@ -237,10 +250,15 @@ impl SegmentedLog {
         let new_segment_id = self.gen_segment_id();
         let filename = segment_filename::format(&self.filename_prefix, new_segment_id);
         let path = self.root_dir_path.join(filename);
+        #[cfg(feature = "verif")]
+        let _vg =
+            crate::verif::pre_path("seglog_create_segment", crate::verif::Kind::Create, &path)?;
         let file = OpenOptions::new()
             .create_new(true)
             .append(true)
             .open(&path)?;
+        #[cfg(feature = "verif")]
+        _vg.done();
         let new_segment = Segment {
             id: new_segment_id,
             min,
@@ -309,7 +327,15 @@ impl SegmentedLog {
 
             // Remove the segment file from the file system.
             let filename = segment_filename::format(&self.filename_prefix, oldest_segment.id);
+            #[cfg(feature = "verif")]
+            let _vg = crate::verif::pre_path(
+                "seglog_prune_oldest",
+                crate::verif::Kind::Unlink,
+                &self.root_dir_path.join(&filename),
+            )?;
             fs::remove_file(self.root_dir_path.join(filename))?;
+            #[cfg(feature = "verif")]
+            _vg.done();
 
             // Remove the segment from the in-memory list preserving the order.
             self.segments.remove(0);
@@ -360,10 +386,31 @@ impl SegmentedLog {
         while self.segments.len() > seg_index + 1 {
             let filename =
                 segment_filename::format(&self.filename_prefix, self.segments.last().unwrap().id);
+            #[cfg(feature = "verif")]
+            let _vg = crate::verif::pre_path(
+                "seglog_prune_recent",
+                crate::verif::Kind::Unlink,
+                &self.root_dir_path.join(&filename),
+            )?;
             fs::remove_file(self.root_dir_path.join(filename))?;
+            #[cfg(feature = "verif")]
+            _vg.done();
             self.segments.pop();
         }
+        #[cfg(feature = "verif")]
+        let _vg = {
+            use std::os::fd::AsRawFd as _;
+            crate::verif::pre(
+                "seglog_prune_recent_dirsync",
+                crate::verif::Kind::DirFsync,
+                self.root_dir_fd.as_raw_fd(),
+                0,
+                &[],
+            )?
+        };
         self.root_dir_fd.sync_data()?;
+        #[cfg(feature = "verif")]
+        _vg.done();
 
         if let Some(head_segment_writer) = self.head_segment_writer.take().take() {
             let file = head_segment_writer.into_inner();
@@ -390,7 +437,15 @@ impl SegmentedLog {
         let _ = self.head_segment_writer.take();
 
         for segment in &self.segments {
+            #[cfg(feature = "verif")]
+            let _vg = crate::verif::pre_path(
+                "seglog_remove_all",
+                crate::verif::Kind::Unlink,
+                &segment.path,
+            )?;
             fs::remove_file(&segment.path)?;
+            #[cfg(feature = "verif")]
+            _vg.done();
         }
         self.segments.clear();
         Ok(())
@@ -591,7 +646,15 @@ impl Recovery {
         }
 
         for segment in nonlive_segments {
+            #[cfg(feature = "verif")]
+            let _vg = crate::verif::pre_path(
+                "seglog_remove_nonlive",
+                crate::verif::Kind::Unlink,
+                &segment.path,
+            )?;
             fs::remove_file(segment.path)?;
+            #[cfg(feature = "verif")]
+            _vg.done();
         }
         Ok(live_segments)
     }
@@ -633,8 +696,34 @@ fn truncate_head_segment(
     };
 
     let mut file = OpenOptions::new().append(true).write(true).open(path)?;
+    #[cfg(feature = "verif")]
+    let _vg = {
+        use std::os::fd::AsRawFd as _;
+        crate::verif::pre(
+            "seglog_truncate_head",
+            crate::verif::Kind::SetLen,
+            file.as_raw_fd(),
+            end,
+            &[],
+        )?
+    };
     file.set_len(end)?;
+    #[cfg(feature = "verif")]
+    _vg.done();
+    #[cfg(feature = "verif")]
+    let _vg = {
+        use std::os::fd::AsRawFd as _;
+        crate::verif::pre(
+            "seglog_truncate_head_fsync",
+            crate::verif::Kind::Fsync,
+            file.as_raw_fd(),
+            0,
+            &[],
+        )?
+    };
     file.sync_data()?;
+    #[cfg(feature = "verif")]
+    _vg.done();
     file.seek(SeekFrom::Start(end))?;
 
     Ok(SegmentFileWriter::new(file, end))
@@ -658,6 +747,8 @@ pub fn open<F>(
 where
     F: FnMut(RecordId, &[u8]) -> anyhow::Result<()>,
 {
+    #[cfg(feature = "verif")]
+    let max_segment_size = crate::verif::seg_size_override().unwrap_or(max_segment_size);
     if start_live.is_nil() ^ end_live.is_nil() {
         return Err(anyhow::anyhow!(
             "Start live and end live must both be nil or both be non-nil, got start: {}, end: {}",
